@@ -30,3 +30,19 @@ package searcher
 //@   loop 0: invariant f.child == old(f.child) && f.accept == old(f.accept) && ctx.DocumentMatchPool != nil && f.started == old(f.started) && f.last == old(f.last) && f.done == old(f.done)
 //@   loop 0: invariant implies(err == nil && next != nil, f.child.started && f.child.last == idKey(next.IndexInternalID) && unconsumed(old(f.child.started), old(f.child.last), f.child.last) && !f.child.done)
 //@   loop 0: invariant implies(err == nil && next == nil, f.child.done)
+//@   loop 0: invariant implies(old(f.child.started), f.child.started && f.child.last >= old(f.child.last))
+
+// Advance: the child lands at or after the target; a rejected match is followed by Next.
+//@ func FilteringSearcher.Advance
+//@   props C08
+//@   mode int
+//@   requires f != nil && filterInv(f) && ctx != nil && ctx.DocumentMatchPool != nil
+//@   requires f.done || unconsumed(f.started, f.last, idKey(ID))
+//@   requires f.child.done || unconsumed(f.child.started, f.child.last, idKey(ID))
+//@   modifies f.started, f.last, f.done, f.child.started, f.child.last, f.child.done, fields(search.DocumentMatch), search.DocumentMatchPool.avail, mem(*search.DocumentMatch)
+//@   at return: ghost f.started = f.started || (result1 == nil && result0 != nil)
+//@   at return: ghost f.last = ite(result1 == nil && result0 != nil, idKey(result0.IndexInternalID), f.last)
+//@   at return: ghost f.done = f.done || (result1 == nil && result0 == nil)
+//@   ensures implies(result1 == nil, filterInv(f))
+//@   ensures implies(result1 == nil && result0 != nil, idKey(result0.IndexInternalID) >= idKey(ID) && ascending(old(f.started), old(f.last), result0) && f.last == idKey(result0.IndexInternalID) && f.started)
+//@   ensures implies(result1 == nil && result0 == nil, f.done)
